@@ -264,7 +264,10 @@ CLAIMED = {
        "show) and z3 discharges the assembly -- forward is evaluated once on [X; X_f], the new strategy is prediction_strategy."
        "get_fantasy_strategy(X_f, y_f, [X; X_f], [y; y_f], that prior[, noise]), the new likelihood is likelihood.get_fantasy_likelihood([noise]), "
        "the fantasy model's train data are [X; X_f] (expanded over the fantasy batch) and [y; y_f] -- and the FRAME: afterwards the source model "
-       "holds the same train_inputs, train_targets, likelihood and prediction_strategy objects, and the result is a different object. Bounded "
+       "holds the same train_inputs, train_targets, likelihood and prediction_strategy objects, and the result is a different object; FixedNoiseGaussianLikelihood.get_fantasy_likelihood "
+       "(with / without learned additional noise, with / without a fantasy batch): the copy's fixed noise is [old FIXED noise; fantasy noise] (up to the "
+       "min_fixed_noise rounding), the additional-noise module is copied once with its value, the source keeps its noise-model object and values, and a "
+       "missing noise keyword is rejected. Bounded "
        "tier (not counted): fantasy predictions (mean, full covariance) and the carried caches (mean_cache, covar_cache, lik_train_train_covar "
        "and its roots; KISS-GP interpolation caches) against dense from-scratch conditioning on the concatenated data, bitwise 'source untouched' "
        "checks, for Gaussian / FixedNoise / multitask / derivative / KISS-GP / model-list families, 1-3 fantasy steps incl. batch-expanding ones, "
